@@ -176,6 +176,16 @@ TIES = {
                           "needs": ["lookup_enc", "lookup_dec", "options", "encode", "encode_stmt", "flows", "streams", "decode", "decoder_base", "generic_sink"],
                           "theorems": ["gs_spo_fuel_tie", "generic_sim_spo", "generic_sim_graph", "generic_encode_triple_is_model", "generic_encode_quad_is_model",
                                        "generic_stream_triple_is_model", "generic_stream_quad_is_model", "generic_stream_graph_is_model"]},
+    # C01 / C04 for the generic integration with the translated source on both sides of the message objects: what the translated
+    # writer builds is what the translated reader is shown to read, composed with the model's round trip
+    "generic_round_trip": {"sources": ["pyjelly/integrations/generic/serialize.py", "pyjelly/integrations/generic/parse.py",
+                                       "pyjelly/integrations/generic/generic_sink.py", "pyjelly/serialize/encode.py", "pyjelly/parse/decode.py",
+                                       "pyjelly/serialize/streams.py"],
+                           "unit": "generic_serialize", "gen": "GenericSerializeGen", "tie": "GenericRoundTrip", "props": ["C01", "C04"],
+                           "needs": ["lookup_enc", "lookup_dec", "options", "encode", "encode_stmt", "flows", "streams", "decode", "decoder_base", "decoder",
+                                     "generic_sink", "generic_parse", "generic_serialize"],
+                           "theorems": ["grmsg_owner", "generic_reads_written_frames", "C01_source_generic_triples", "C01_source_generic_quads",
+                                        "C01_source_generic_graphs"]},
     # property C05 itself, about the translated writer and reader coupled as the wire couples them (no model in the statement)
     "c05_source": {"sources": ["pyjelly/serialize/lookup.py", "pyjelly/parse/lookup.py"], "unit": "lookup_enc", "gen": "LookupEncGen", "tie": "C05Source",
                    "needs": ["lookup_enc", "lookup_dec"], "props": ["C05"], "theorems": ["C05_source_mirror_all_histories"]},
